@@ -340,6 +340,14 @@ def ctc_edits(trees):
             e = list(trees)
             e[i] = (t[0], t[1], 'Zz9')
             out.append(('operand of c%d replaced' % i, e))
+    # one constraint replaced by a copy of another one (the list keeps its length; constraints form a multiset, not a set)
+    for i in range(len(trees)):
+        for j in range(len(trees)):
+            if i != j and trees[i] != trees[j]:
+                e = list(trees)
+                e[i] = trees[j]
+                if sorted(map(repr, e)) != sorted(map(repr, trees)):
+                    out.append(('c%d replaced by a copy of c%d' % (i, j), e))
     if trees:
         out.append(('constraint dropped', list(trees[1:])))
         out.append(('constraint added', list(trees) + [('AND', 'Zz9', 'Zz8')]))
@@ -383,6 +391,22 @@ def batch_edits(max_n, lo, hi):
         desc = describe(shape, cards, names)
         trees = default_ctcs(names)
         cases = [(lab, d2, trees) for lab, d2 in structural_edits(desc)] + [(lab, desc, t2) for lab, t2 in ctc_edits(trees)]
+        if len(names) >= 3:      # a constraint list that states one constraint twice
+            dup = [('IMPLIES', names[0], names[-1]), ('IMPLIES', names[0], names[-1]), ('IMPLIES', names[1], names[-1])]
+            cases += [('[duplicated constraint] ' + lab, desc, t2, dup) for lab, t2 in ctc_edits(dup)]
+        for case in cases:
+            lab, d2, t2 = case[0], case[1], case[2]
+            t1 = case[3] if len(case) > 3 else trees
+            res['instances'] += 1
+            res['native_runs'] += 1
+            res['nontrivial'] += 1
+            bad = replay_edit(desc, t1, d2, t2, lab)
+            if bad:
+                res['violations'].append({'label': 'edit', 'detail': bad[0], 'replay_func': 'replay_edit', 'replay_args': [desc, t1, d2, t2, lab]})
+                if len(res['violations']) >= 4:
+                    return res
+            res['sample'] = {'shape': R.shape_str(shape), 'edit': lab}
+        continue
         for lab, d2, t2 in cases:
             res['instances'] += 1
             res['native_runs'] += 1
